@@ -205,9 +205,9 @@ CLAIMS = [
           "counter, every call that can re-enter the parser (list/vector builders, quote shorthands) happens at a "
           "strictly smaller non-zero depth, no counter underflow, limit error only when fewer than 2 levels remain",
           "all u8 depths >= 1, all 13 token kinds, arbitrary callee results, EOF / I/O error anywhere", configs=("fast",),
-          also=("C01", "C04", "C13")),
+          also=("C01", "C04", "C13", "C16")),
     Claim("c03_depth_next_datum", "C03", "quick", claim_depth("next_datum"),
-          "next_datum: same depth protocol as next_value", "as c03_depth_next_value", configs=("fast",), also=("C10",)),
+          "next_datum: same depth protocol as next_value", "as c03_depth_next_value", configs=("fast",), also=("C10", "C16")),
     Claim("c03_initial_depth", "C03", "quick", claim_initial_depth,
           "both Parser constructors start with a depth budget in [101, 200] (>= 100 levels accepted, documented limit 128)",
           "constructors new / with_options", configs=("fast",)),
